@@ -322,7 +322,30 @@ def gen_collective(rng, idx):
     s.nbar = 1
     return s
 
-GENERATORS = {'collective': gen_collective, 'mixed': gen_mixed, 'aggregate': gen_aggregate, 'stream': gen_stream, 'storm': gen_handler_storm, 'masked': gen_masked}
+def gen_amplify(rng, idx):
+    """C03: the remote-lookup pattern.  One received buffer holds many small requests whose handlers each answer with a
+    larger reply; the receive size is 64 x the capacity, as in the default configuration (16 MB / 1 GB), scaled down."""
+    n, ppn = rng.choice([(2, 2), (2, 1), (4, 2), (3, 3)])
+    bufkb = 1
+    s = Scenario(n, ppn, rng.choice(ROUTINGS), bufkb, irecvkb=64 * bufkb, policy=rng.choice(POLICIES), seed=rng.randrange(1, 1 << 30), kind='amplify',
+                 nirecv=rng.choice([2, 8]), nisw=rng.choice([0, 4]), freq=rng.choice([0, 8]), eager=rng.choice([0, 4096]))
+    u = 100
+    src = rng.randrange(n)
+    dst = (src + 1 + rng.randrange(n - 1)) % n
+    nreq = rng.choice([40, 60])                    # 40 requests of ~20 bytes fit one 1 KB buffer
+    rlen = rng.choice([1800, 2500])                # 40 x 1800 = 72 KB of replies > 64 KB receive size
+    for i in range(nreq):
+        u += 1
+        c = u * 1000 + 1
+        s.main[src].append(['A', dst, u, 0]); s.meta[u] = dict(kind='A', dests=[dst], len=0, parent=-1, epoch=1, origin=src)
+        s.msg[u] = [['A', src, c, rlen]]
+        s.meta[c] = dict(kind='A', dests=[src], len=rlen, parent=u, epoch=1); s.msg[c] = []
+    for r in range(n):
+        s.main[r].append(['BAR'])
+    s.nbar = 1
+    return s
+
+GENERATORS = {'amplify': gen_amplify, 'collective': gen_collective, 'mixed': gen_mixed, 'aggregate': gen_aggregate, 'stream': gen_stream, 'storm': gen_handler_storm, 'masked': gen_masked}
 
 def expected_execs(s):
     """uid -> list of ranks on which the handler must run (with multiplicity)."""
@@ -390,7 +413,7 @@ def gen_suite(seed, tier, kinds):
     rng = random.Random(seed * 7919 + 13)
     quick = tier == 'quick'
     counts = {'collective': 1, 'mixed': 60 if quick else 1200, 'aggregate': 16 if quick else 200, 'stream': 12 if quick else 150,
-              'storm': 20 if quick else 300, 'masked': 14 if quick else 200}
+              'storm': 20 if quick else 300, 'masked': 14 if quick else 200, 'amplify': 4 if quick else 40}
     out = []
     for k in kinds:
         for i in range(counts[k]):
